@@ -35,7 +35,8 @@ def make_cc(case):
     for k in ('r1', 'r2', 'H', 'L'):
         if g.get(k) is not None:
             setattr(cc, k, g[k])
-    if 'iso_' in case['model']:
+    if 'iso_' in case['model'] or case.get('wall') == 'E11-nu-h':
+        # isotropic wall given by (E11, nu, h): the short-cut models, and the general classical models without laminaprop / stack
         cc.E11, cc.nu, cc.h = case['E11'], case['nu'], case['h']
     else:
         cc.laminaprop = tuple(case['laminaprop'])
@@ -260,6 +261,26 @@ def check_fext(case, ctx):
                 ctx.known(R8, name + '.virtual-work', 'torque applied as a point force: fext.dc = %r, work of a uniform shear flow = %r' % (got, want))
             else:
                 raise Violation(name + '.virtual-work', 'fext.dc = %r, virtual work of the loads = %r (sum|terms| %.3e)' % (got, want, wabs))
+    # the displacement field "the package reports" at given points does not depend on how the caller stores them: the same 3 x 5 points
+    # as Fortran-ordered / transposed / differently laid out 2-D arrays
+    lay = case.get('pts_layout', 'C')
+    if lay != 'C':
+        X2, T2 = np.meshgrid(np.array([0.13, 0.5, 0.91]) * L, np.linspace(-2.5, 2.9, 5), indexing='ij')
+        with package(name + '.uvw'):
+            base = [np.asarray(q).copy() for q in cc.uvw(dc.copy(), xs=X2.ravel(), ts=T2.ravel(), inc=1.)]
+        if lay == 'F':
+            Xl, Tl = np.asfortranarray(X2), np.asfortranarray(T2)
+        elif lay == 'T':
+            Xl, Tl = np.ascontiguousarray(X2.T).T, np.ascontiguousarray(T2.T).T
+        else:
+            Xl, Tl = np.asfortranarray(X2), T2
+        with package(name + '.uvw'):
+            got2 = cc.uvw(dc.copy(), xs=Xl, ts=Tl, inc=1.)
+        ctx.label('points:' + lay)
+        for nm, a_, b_ in zip(('u', 'v', 'w', 'phix', 'phit'), base, got2):
+            b_ = np.asarray(b_)
+            ctx.ok(b_.shape == X2.shape and np.array_equal(np.ascontiguousarray(b_).ravel(), a_.ravel()), name + '.points-layout',
+                   '%s[i,j] is not the value at (xs[i,j], ts[i,j]) for %s-layout point arrays' % (nm, lay))
 
 
 def check_static(case, ctx):
@@ -394,6 +415,7 @@ def _fext_strategy(draw, tier='quick'):
     case = draw(shell_case())
     case['forces'] = draw(st.lists(cforce(), min_size=0, max_size=4))
     case['inc'] = draw(st.one_of(gen.fl(0.05, 1.), st.just(1.)))
+    case['pts_layout'] = draw(st.sampled_from(['C', 'C', 'F', 'T', 'mixed']))
     case['prelude'] = None
     if case['forces'] and draw(st.integers(0, 2)) == 0:
         case['prelude'] = [{k: v for k, v in draw(cforce()).items() if k != 'inc'} for _ in case['forces']]
